@@ -26,6 +26,11 @@ var solvers = []solverSpec{
 		return []string{"cvc5", fmt.Sprintf("--tlimit=%d", t*1000), f}
 	}},
 	{"z3-4.8", func(f string, t int) []string { return []string{"z3", fmt.Sprintf("-T:%d", t), f} }},
+	// same solver without equation elimination: eliminating a loop counter through an equation such as
+	// `nzrow(row) == j - k` rewrites the index terms the quantifier patterns have to match and loses the proof
+	{"z3-5.1/noelim", func(f string, t int) []string {
+		return []string{"z3-new", "smt.solve_eqs=false", fmt.Sprintf("-T:%d", t), f}
+	}},
 }
 
 func sortTokens(s Sort, out map[string]bool) {
@@ -224,6 +229,12 @@ func (e *Engine) renderVC(o *Obligation) (string, error) {
 		for _, h := range con.Hide {
 			hide[strings.TrimPrefix(h, "spec.")] = true
 		}
+		for _, r := range con.Reveal {
+			used[strings.TrimPrefix(r, "spec.")] = true
+		}
+	}
+	for _, r := range o.Reveal {
+		used[strings.TrimPrefix(r, "spec.")] = true
 	}
 	forms := e.spec.closure(used, hide)
 	defined := map[string]bool{}
